@@ -14,6 +14,10 @@ structure St where
   ngbs : List (Nat × List (Option Nat)) := []
   s : State := init (fun _ => []) []
   doneBefore : Nat := 0
+  /-- real packet identity of every model packet (hook records Q*), staged physics outcomes -/
+  m2r : Array Nat := #[]
+  fates : Option (List Nat) := none
+  keeps : Option (List Bool) := none
 
 def int! (s : String) : Int := s.toInt?.getD 0
 def optOfInt (i : Int) : Option Nat := if i < 0 then none else some i.toNat
@@ -42,6 +46,11 @@ def kindStr (s : State) : Kind → String
   | .traverse b => s!"traverse {match s.pool b with | some buf => toString buf.sub | none => "?"} {b}"
   | .reemit b => s!"reemit {match s.pool b with | some buf => toString buf.sub | none => "?"} {b}"
   | .flush c => s!"flush {c} 0"
+
+def kindBuf' : Kind → Option Nat
+  | .traverse b => some b
+  | .reemit b => some b
+  | _ => none
 
 def stStr : TSt → String
   | .pending => "pending" | .queued => "queued" | .running => "running"
@@ -97,7 +106,8 @@ def handle (st : St) : List String → St × String
         (acc.1 ++ [(List.range p.2.2).map (· + acc.2)], acc.2 + p.2.2)) ([], 0)
     let arr := srcIds.toArray
     let contIds := (List.range (nat! ncont)).map (· + next)
-    let st' := { st with s := init (fun i => arr.getD i []) contIds, doneBefore := 0 }
+    let st' := { st with s := init (fun i => arr.getD i []) contIds, doneBefore := 0,
+                         m2r := (List.range (next + nat! ncont)).toArray, fates := none, keeps := none }
     ({ st' with s := normalize st' }, s!"init {next + nat! ncont}")
   | ["launch", t, src] =>
     match apply st (.launchBatch (nat! src) (nat! t)) with
@@ -160,7 +170,9 @@ def handle (st : St) : List String → St × String
         -- physics outcome: the first out(d) packets leave through d (in the order given), the last `gone`
         -- packets are not stored (a disabled direction)
         let dis := (List.range NDIR).find? fun i => !dirEnabled st.cfg g i
-        let fates := (dirs.flatMap fun d => List.replicate d.2.1 d.1) ++ List.replicate (nat! gone) (dis.getD NDIR)
+        let fates := match st.fates with
+          | some f => f
+          | none => (dirs.flatMap fun d => List.replicate d.2.1 d.1) ++ List.replicate (nat! gone) (dis.getD NDIR)
         let res := (List.range NDIR).map fun i => ((dirs.find? (·.1 == i)).map (·.2.2.1)).getD ⟨0, 0, 0⟩
         match apply st (.execTraverse (nat! t) fates res) with
         | some st' =>
@@ -170,7 +182,7 @@ def handle (st : St) : List String → St × String
           let ovf := dirs.any fun d => match st'.s.tasks d.2.2.1.nt with | some ⟨_, .pending⟩ => (st.s.tasks d.2.2.1.nt).isNone | _ => false
           let newa := dirs.any fun d => (st.s.active g d.1).isNone
           let tag := (if ovf then "-overflow" else "") ++ (if newa then "-newactive" else "") ++ (if nat! gone > 0 then "-gone" else "")
-          ({ st' with doneBefore := st'.s.done.length },
+          ({ st' with doneBefore := st'.s.done.length, fates := none },
            s!"trav sub={g} in={buf.ids.length} done={st'.s.done.length - st.s.done.length} largest={(st'.s.largest g).1},{(st'.s.largest g).2} {" ".intercalate per} #traverse{tag}")
         | none => (st, s!"trav DISABLED fates={fates.length} in={buf.ids.length} dis={dis}")
       | none => (st, "trav DISABLED input-buffer-not-in-use")
@@ -179,9 +191,11 @@ def handle (st : St) : List String → St × String
     match st.s.tasks (nat! t) with
     | some ⟨.reemit b, .running⟩ =>
       let n := bufLen st.s.pool b
-      let keep := List.replicate (nat! k) true ++ List.replicate (n - nat! k) false
+      let keep := match st.keeps with
+        | some f => f
+        | none => List.replicate (nat! k) true ++ List.replicate (n - nat! k) false
       match apply st (.execReemit (nat! t) keep (nat! t')) with
-      | some st' => (st', s!"reem in={n} kept={bufLen st'.s.pool b} done={st'.s.done.length - st.s.done.length} #reemit{if nat! k = 0 then "-none" else if nat! k = n then "-all" else "-some"}")
+      | some st' => ({ st' with keeps := none }, s!"reem in={n} kept={bufLen st'.s.pool b} done={st'.s.done.length - st.s.done.length} #reemit{if nat! k = 0 then "-none" else if nat! k = n then "-all" else "-some"}")
       | none => (st, s!"reem DISABLED in={n}")
     | _ => (st, s!"reem DISABLED {taskStr st.s (nat! t)}")
   | ["prem", g, t'] =>
@@ -190,6 +204,30 @@ def handle (st : St) : List String → St × String
     match apply st (.premature (nat! g) (nat! t')) with
     | some st' => (st', s!"prem dir={d} buf={b} count={bufLen st'.s.pool b} task={taskStr st'.s (nat! t')} #premature-{if d = 0 then "reemit" else "traverse"}")
     | none => (st, s!"prem DISABLED largest={(st.s.largest (nat! g)).1},{(st.s.largest (nat! g)).2} locked={lockHeld st.cfg st.s (.sub (nat! g))}")
+  | "qbind" :: b :: ids =>
+    -- the packets of the new buffer b get the identities the implementation gave them
+    match st.s.pool (nat! b) with
+    | some buf =>
+      if buf.ids.length = ids.length then
+        let m2r := (buf.ids.zip (parseNats ids)).foldl (fun (a : Array Nat) p => a.setIfInBounds p.1 p.2) st.m2r
+        ({ st with m2r := m2r }, "qbind ok")
+      else (st, s!"qbind BAD model has {buf.ids.length} packets in the buffer")
+    | none => (st, "qbind BAD buffer not in use in the model")
+  | "qin" :: t :: ids =>
+    -- identities of the packets that enter a traversal / re-emission task
+    match st.s.tasks (nat! t) with
+    | some ⟨k, _⟩ =>
+      match kindBuf' k with
+      | some b =>
+        let mine := ((st.s.pool b).map fun buf => buf.ids.map fun m => st.m2r.getD m 0).getD []
+        if mine == parseNats ids then (st, "qin ok") else (st, s!"qin BAD model={showList mine}")
+      | none => (st, "qin BAD task has no buffer")
+    | none => (st, "qin BAD no such task")
+  | "qbuf" :: b :: ids =>
+    let mine := ((st.s.pool (nat! b)).map fun buf => buf.ids.map fun m => st.m2r.getD m 0).getD []
+    if mine == parseNats ids then (st, "qbuf ok") else (st, s!"qbuf BAD model={showList mine}")
+  | "qfate" :: fs => ({ st with fates := some (parseNats fs) }, "qfate ok")
+  | "qkeep" :: fs => ({ st with keeps := some (fs.map (· == "1")) }, "qkeep ok")
   | ["largest", g] => (st, s!"largest {(st.s.largest (nat! g)).1} {(st.s.largest (nat! g)).2}")
   | ["term"] =>
     match apply st .checkTermination with
